@@ -69,6 +69,7 @@ Section T.
   Proof.
     intros Hg HE Ha1 Hb1 Hv. cbv zeta. pose proof (boudot_accepts BP p g h n rmin rmax Hv) as [_ [Hp _]].
     split; [exact Hp|]. unfold boudot_verify in Hv. destruct (rmax <=? rmin); [discriminate|].
+    destruct ((bd_E p <? 0) || (n <=? bd_E p))%bool; [discriminate|].
     rewrite Hp in Hv. cbn [bind] in Hv. rewrite Z.eqb_refl in Hv.
     apply (tolerance_accepts_ties_E BP (bd_wt p) g gi h (bd_Eprime p) Epi rmin rmax _ Ea1i Eb1i Hg HE Ha1 Hb1 Hv).
   Qed.
